@@ -199,7 +199,15 @@ def _concrete(eng, fn, params, model):
     inject.deactivate()
     try:
         fm = {k: float(v) for k, v in model.items()}
-        return eng.run_concrete(lambda: fn(eng, **params), fm)
+        try:
+            return eng.run_concrete(lambda: fn(eng, **params), fm)
+        except Exception as e:
+            import traceback as _tb
+            where = [f for f in _tb.extract_tb(e.__traceback__) if "/cr/cube/" in f.filename]
+            if not where:
+                raise
+            loc = "%s:%s" % (where[-1].filename.split("/cr/cube/")[-1], where[-1].name)
+            return [Obs("exception %s in %s" % (type(e).__name__, loc), "raised %s: %s" % (type(e).__name__, str(e)[:120]), "no exception", kind="same")]
     finally:
         inject.activate(eng)
 
@@ -359,13 +367,30 @@ def _canary_refuted(eng, goal, model):
 def _explore(eng, fn, params, max_paths, res):
     traced = [False]
 
+    def guarded():
+        try:
+            return fn(eng, **params)
+        except (Unsupported, PathBudgetExceeded):
+            raise
+        except Exception as e:
+            from .engine import Infeasible
+            if isinstance(e, Infeasible):
+                raise
+            import traceback as _tb
+            frames = _tb.extract_tb(e.__traceback__)
+            where = [f for f in frames if "/cr/cube/" in f.filename]
+            if not where:
+                raise          # raised by the harness itself, not by the library
+            loc = "%s:%s" % (where[-1].filename.split("/cr/cube/")[-1], where[-1].name)
+            return [Obs("exception %s in %s" % (type(e).__name__, loc), "raised %s: %s" % (type(e).__name__, str(e)[:120]), "no exception", kind="same")]
+
     def run():
         if not traced[0]:
             traced[0] = True
-            out, names = _trace_functions(lambda: fn(eng, **params))
+            out, names = _trace_functions(guarded)
             res.functions |= names
             return out
-        return fn(eng, **params)
+        return guarded()
 
     for pi, obs in eng.explore(run, max_paths=max_paths):
         yield pi, obs
@@ -584,7 +609,15 @@ def replay_file(path):
         model[k] = float(Fraction(s)) if isinstance(s, str) else float(s)
     warnings.filterwarnings("ignore")
     np.seterr(all="ignore")
-    conc = eng.run_concrete(lambda: fn(eng, **v["params"]), model)
+    try:
+        conc = eng.run_concrete(lambda: fn(eng, **v["params"]), model)
+    except Exception as e:
+        import traceback as _tb
+        where = [f for f in _tb.extract_tb(e.__traceback__) if "/cr/cube/" in f.filename]
+        if not where:
+            raise
+        loc = "%s:%s" % (where[-1].filename.split("/cr/cube/")[-1], where[-1].name)
+        conc = [Obs("exception %s in %s" % (type(e).__name__, loc), "raised %s: %s" % (type(e).__name__, str(e)[:120]), "no exception", kind="same")]
     for c in conc:
         if c.label == v["obs"]:
             bad = _concrete_mismatch(c)
